@@ -74,3 +74,10 @@ check("C13", "exploration", "exhaustive enumeration of all strings up to length 
 for e in ENGINES:
     if e["name"] == "evid":
         e["serves_properties"] = sorted(set(e["serves_properties"] + ["C13"]))
+
+check("C03", "fault_enumeration", "exhaustive enumeration (deviation-bounded DFS under the controlled runtime) of registry/CDN fault sequences, cancellation points, download-goroutine interleavings and retry histories of the real PullModel",
+      "The real legacy pull path (PullModel, downloadBlob, blobDownload.Prepare/run/downloadChunk with its tickers, retries and part files; part size scaled to 4 bytes) runs over the controlled file system against the in-process registry with CDN redirect; per scenario every execution of [faulty/interrupted attempt(s) -> fault-free attempt] within the bounds. Oracle after every attempt: success => every layer of the served manifest present with its size and sha256 and the stored manifest equals the served one; failure => if the name resolves, to a complete model (old or new); a fault-free retry after quiescence succeeds; no panic in any goroutine (adversarial Www-Authenticate challenges included).",
+      "Go toolchain; instrumenter + mcrt/mcos/fakereg; minDownloadPartSize literal scaled; bounds and per-scenario caps in evidence; a second pull that joins a download whose preparation failed waits until its client gives up (observed, outside the property text).", "DESIGN.md 3/C03", "fakereg")
+for e in ENGINES:
+    if e["name"] in ("mcrt", "instrument", "mcos", "fakereg"):
+        e["serves_properties"] = sorted(set(e["serves_properties"] + ["C03"]))
